@@ -44,7 +44,11 @@ partial def modFromJson (j : Json) : Except String Mod := do
   let modsJ : List (String × Json) ← fromJson? (← j.getObjVal? "modules")
   let mods ← modsJ.mapM (fun (n, mj) => do return (n, ← modFromJson mj))
   let dflt : Option Sig ← fromJson? (← j.getObjVal? "default")
-  return Mod.mk recipes mods dflt
+  -- "hasRecipes": whether the module has recipes of its own (default: the name table is non-empty)
+  let has : Bool := match j.getObjValAs? Bool "hasRecipes" with
+    | .ok b => b
+    | .error _ => !recipes.isEmpty
+  return Mod.mk recipes mods dflt has
 end Just.Args
 
 namespace Just.EnvExport
